@@ -48,9 +48,12 @@ func Tool() {}
 `
 
 const goWrapScript = `#!/bin/sh
-# fails (VT_GOFAIL=<subcommand>) or stalls (VT_GOPAUSE=<subcommand>, marker file VT_GOMARK) one go subcommand
+# fails (VT_GOFAIL=<subcommand>) or stalls (VT_GOPAUSE=<subcommand>, marker file VT_GOMARK, until VT_GORELEASE exists) one go subcommand
 if [ -n "$VT_GOFAIL" ] && [ "$1" = "$VT_GOFAIL" ]; then echo "injected failure of go $1" >&2; exit 1; fi
-if [ -n "$VT_GOPAUSE" ] && [ "$1" = "$VT_GOPAUSE" ]; then : > "$VT_GOMARK"; sleep 60; fi
+if [ -n "$VT_GOPAUSE" ] && [ "$1" = "$VT_GOPAUSE" ]; then
+  : > "$VT_GOMARK"
+  if [ -n "$VT_GORELEASE" ]; then n=0; while [ ! -e "$VT_GORELEASE" ] && [ $n -lt 600 ]; do sleep 0.1; n=$((n+1)); done; else sleep 60; fi
+fi
 exec go "$@"
 `
 
